@@ -134,8 +134,9 @@ def apply(run, kind, largs, start):
 
 
 def run_history(item):
-    start, direction, names = item
-    twins = {m: TraceRun(start, m, direction, 1.0, dp=8) for m in ("absolute", "relative")}
+    start, direction, names = item[:3]
+    opts = item[3] if len(item) > 3 else {}
+    twins = {m: TraceRun(start, m, direction, 1.0, dp=8, **opts) for m in ("absolute", "relative")}
     out = []
     total = 0
     p = start
@@ -145,7 +146,7 @@ def run_history(item):
         kind, largs, end = OPS[name](p, direction)
         res = {m: apply(t, kind, largs, p) for m, t in twins.items()}
         (ea, va), (er, vr) = res["absolute"], res["relative"]
-        rp = {"start": start, "direction": direction, "ops": list(names), "failing_op": depth}
+        rp = {"start": start, "direction": direction, "ops": list(names), "failing_op": depth, "opts": opts}
         if (ea is None) != (er is None):
             out.append((f"{kind}:raises-in-one-mode-only", f"{names} step {depth} ({kind} {largs}): absolute -> {ea!r}, relative -> {er!r}", rp))
             break
@@ -187,6 +188,18 @@ def run(tier, seed):
         for i, s in enumerate(STARTS):
             for h in itertools.product(names, repeat=3):
                 hists.append((s, ("clockwise", "counter")[(i + len(h[0])) % 2], h))
+    # the same twins with a pass-through move hook registered, and under a linear transform installed before the first motion
+    simple = [n for n in names if n in ("move", "move-xy", "rapid", "move_absolute", "rapid_absolute", "ctx_abs_move", "ctx_rel_move", "polyline", "arc", "circle")]
+    for opts in ({"hook": True}, {"transform": True}, {"hook": True, "transform": True}):
+        pool = names if (tier == "thorough" or opts == {"hook": True}) else simple
+        first = simple
+        if opts.get("transform"):
+            # bypass moves ignore the transform by contract: afterwards machine and builder no longer agree and the two
+            # modes legitimately diverge, so they are left out under a transform
+            pool = [n for n in pool if "absolute" not in n]
+            first = [n for n in simple if "absolute" not in n]
+        for h in itertools.product(first, pool):
+            hists.append((STARTS[1], "clockwise", h, opts))
     results = pmap(run_history, hists, chunksize=8)
     nv = 0
     for out, total in results:
@@ -197,13 +210,13 @@ def run(tier, seed):
     res.coverage = {
         "states": nstates, "transitions": 2 * nstates, "traces_validated_against_impl": len(hists),
         "evaluations": len(hists), "distinct_nontrivial": len(hists),
-        "rule": (f"every sequence of {'2 (plus a depth-3 family)' if tier == 'quick' else '3'} logical toolpath ops from {names} from 3 start positions; "
+        "rule": (f"every sequence of {'2 (plus a depth-3 family)' if tier == 'quick' else '3'} logical toolpath ops from {names} from 3 start positions, plus two-op histories with a pass-through move hook registered and/or under a linear transform (scale 2, rotate 30 degrees) installed before the first motion; "
                  "each history is executed on two real builders in lock-step, one in absolute and one in relative distance mode (the relative twin receives "
                  "offsets); machine vertices rebuilt by the independent interpreter must agree pairwise, with equal counts and equal exception behaviour; "
                  "states = twin-pair states visited, transitions = real calls"),
         "exhaustive": True, "exhaustive_note": "all histories of the stated depth over the stated logical alphabet; resolution 1.0, 8 decimals",
         "vertices_compared": nv,
-        "samples": [{"start": h[0], "direction": h[1], "ops": list(h[2])} for h in (hists[0], hists[len(hists) // 2], hists[-1])],
+        "samples": [{"start": h[0], "direction": h[1], "ops": list(h[2]), "opts": (h[3] if len(h) > 3 else {})} for h in (hists[0], hists[len(hists) // 2], hists[-1])],
     }
     res.assumptions = ["tolerance = accumulated output rounding of both twins + 1e-7"]
     return res
@@ -211,5 +224,5 @@ def run(tier, seed):
 
 def replay(body):
     rp = body["replay"]
-    out, _ = run_history((tuple(rp["start"]), rp["direction"], tuple(rp["ops"])))
+    out, _ = run_history((tuple(rp["start"]), rp["direction"], tuple(rp["ops"]), rp.get("opts") or {}))
     return {"violations": [(s, m) for s, m, _ in out]}
